@@ -6,7 +6,7 @@
  * libevent's internal notification fd sits in the kernel-facing set next to the user fds).
  *
  * fds:   primary slot at fd 20, kind chosen first: pipe read end / pipe write end /
- *        AF_UNIX stream socket / TCP loopback socket;   secondary slot: AF_UNIX at fd 70.
+ *        AF_UNIX stream socket / TCP loopback socket (/ AF_UNIX datagram / AF_UNIX seqpacket with -P kinds=6);   secondary slot: AF_UNIX at fd 70.
  * ops:   toggle one of 9 (7 without ET) events on the primary fd:
  *           R, W, R|W, R|CLOSED, CLOSED alone (persistent LT), one-shot R, K = persistent R whose callback
  *           event_del()s every other event on its fd, ET R, ET W (epoll only, never mixed with LT)
@@ -36,13 +36,14 @@
 #include "backend_digest.h"
 #include <sys/ioctl.h>
 
-enum { K_PIPE_R, K_PIPE_W, K_UNIX, K_TCP, K_N };
-static const char *const kind_name[K_N] = { "pipe-r", "pipe-w", "unix", "tcp" };
+enum { K_PIPE_R, K_PIPE_W, K_UNIX, K_TCP, K_UDGRAM, K_USEQ, K_N };   /* -P kinds=N offers the first N (default 4) */
+static const char *const kind_name[K_N] = { "pipe-r", "pipe-w", "unix", "tcp", "unix-dgram", "unix-seqpacket" };
 enum { E_WR, E_DRAIN, E_FILL, E_UNFILL, E_SHUT, E_CLOSE, E_RST, E_N };
 static const char *const env_name[E_N] = { "wr", "drain", "fill", "unfill", "shut", "close", "rst" };
 static const int env_of_kind[K_N][7] = {
 	{ E_WR, E_DRAIN, E_CLOSE, -1 }, { E_FILL, E_UNFILL, E_CLOSE, -1 },
-	{ E_WR, E_DRAIN, E_FILL, E_UNFILL, E_SHUT, E_CLOSE, -1 }, { E_WR, E_DRAIN, E_SHUT, E_CLOSE, E_RST, -1 } };
+	{ E_WR, E_DRAIN, E_FILL, E_UNFILL, E_SHUT, E_CLOSE, -1 }, { E_WR, E_DRAIN, E_SHUT, E_CLOSE, E_RST, -1 },
+	{ E_WR, E_DRAIN, E_FILL, E_UNFILL, E_SHUT, E_CLOSE, -1 }, { E_WR, E_DRAIN, E_FILL, E_UNFILL, E_SHUT, E_CLOSE, -1 } };
 
 #define NT 9
 static const struct { short ev; const char *name; int et, killer; } T[NT] = {
@@ -116,9 +117,9 @@ static int open_slot(int i)
 		int p[2];
 		if (pipe2(p, O_NONBLOCK) < 0) goto bad;
 		if (s->kind == K_PIPE_R) { a = p[0]; b = p[1]; } else { a = p[1]; b = p[0]; }
-	} else if (s->kind == K_UNIX) {
-		int sv[2];
-		if (socketpair(AF_UNIX, SOCK_STREAM | SOCK_NONBLOCK, 0, sv) < 0) goto bad;
+	} else if (s->kind == K_UNIX || s->kind == K_UDGRAM || s->kind == K_USEQ) {
+		int sv[2], ty = s->kind == K_UNIX ? SOCK_STREAM : s->kind == K_UDGRAM ? SOCK_DGRAM : SOCK_SEQPACKET;
+		if (socketpair(AF_UNIX, ty | SOCK_NONBLOCK, 0, sv) < 0) goto bad;
 		a = sv[0]; b = sv[1];
 	} else {
 		struct sockaddr_in sin; int one = 1;
@@ -335,7 +336,13 @@ static void body(void)
 	iter_open = n_waits = n_iters = ops_since_wait = sig_pending = n_sigcb = n_user_handler = 0; add_seq = 0;
 	memset(S, 0, sizeof S); memset(E, 0, sizeof E);
 
-	int kind = mc_choose(K_N, 0, "kind");
+	int focus = mc_param("focus", 0), nkinds = mc_param("kinds", 4);
+	if (nkinds > K_N) nkinds = K_N;
+	/* -P focus=1: AF_UNIX only, ops {toggle ET R, toggle ET W, peer write, drain, wait}: a narrow slice that
+	 * reaches depth-4 edge-trigger histories (two ET events on one fd, one deleted after a wait) in the quick tier */
+	/* -P onlykind=k fixes the kind; -P lean=1 drops the secondary-fd ops and raise (deeper single-fd histories) */
+	int onlykind = mc_param("onlykind", -1), lean = mc_param("lean", 0);
+	int kind = focus ? K_UNIX : (onlykind >= 0 && onlykind < K_N) ? onlykind : mc_choose(nkinds, 0, "kind");
 	mc_observe("%s: ", kind_name[kind]);
 	S[0].kind = kind; S[1].kind = K_UNIX;
 	base = bk_new_base(BK, SIGFD);
@@ -351,9 +358,23 @@ static void body(void)
 	int nenv = 0; while (env_of_kind[kind][nenv] >= 0) nenv++;
 	const int o_env = NTB, o_reopen = o_env + nenv, o_sec = o_reopen + 1, o_raise = o_sec + 4, o_wait = o_raise + 1, n_ops = o_wait + 1;
 	for (int step = 0; step < D; step++) {
-		int op = mc_choose(n_ops + 1, 0, "op");
-		if (!op) break;
-		op--;
+		int op;
+		if (focus) {
+			const int allowed[5] = { NT - 2, NT - 1, o_env + 0, o_env + 1, o_wait };
+			op = mc_choose(5 + 1, 0, "op");
+			if (!op) break;
+			op = allowed[op - 1];
+		} else if (lean) {
+			/* toggles, environment ops, reopen, then wait */
+			op = mc_choose(o_sec + 1 + 1, 0, "op");
+			if (!op) break;
+			op--;
+			if (op == o_sec) op = o_wait;
+		} else {
+			op = mc_choose(n_ops + 1, 0, "op");
+			if (!op) break;
+			op--;
+		}
 		ops_since_wait++;
 		if (op < o_env) toggle(&E[op]);
 		else if (op < o_reopen) { int e = env_of_kind[kind][op - o_env]; env_op(0, e); mc_observe("%s ", env_name[e]); MC_COUNT("c04_op_env"); }
